@@ -34,6 +34,25 @@ func c03L1Corpus() []struct{ label, evs string } {
 	add("dispose", "GP:1;D;GK:1")
 	add("pull-retry", "LS:1:9;LF;T:10;LF;T:11;LS:1:12;LT;T:13;LS:0:14;LF;T:15")
 	add("pull-retry", "LS:f:9;LF;T:10;LF;T:11;LF;RS:1:12;LF;SD:2;SY:2:13;LT;T:14")
+	// the group's own attempt attaches (the origin answers), leaves, is stopped, is kicked
+	add("pull-own-attach", "LS:0:9;LO;RP:1;CM:1;LT;RP:2;Rp:2")
+	add("pull-own-attach", "LS:1:9;LO;LO;LF;T:10;LO;K:10;T:11;LS:0:12")
+	add("pull-own-attach", "LS:f:9:1;LO;SP:1;GP:2;LF;T:10;LO;K:10;LF")
+	add("pull-own-attach", "RS:1:8;LS:0:9:1;RP:2;LO;Rp:2;T:10;LS:0:11;LO;LT")
+	add("pull-own-attach", "LS:0:9;RP:1;LO;Rp:1;LS:0:10;LO;D;LF")
+	// a pull session the group is not waiting for: no attempt at all, after the attempt was stopped / kicked
+	// while it was connecting, an older attempt after a newer one was started
+	add("pull-not-wanted", "LA:1:0;LA:2:1;LD:1:0;LD:2:1")
+	add("pull-not-wanted", "LS:0:9;LA:1:0;LA:2:1;LO;LD:1:0")
+	add("pull-stop-connecting", "LS:1:9;LT;LT;LO;T:10;LS:1:11;LO;LT")
+	add("pull-stop-connecting", "LS:f:9:1;LT;LS:f:10;LO;LS:f:11:1;LO;RP:1;LF")
+	add("pull-stop-connecting", "RS:1:8;LS:f:9;LT;LF;T:10;LS:f:11;LT;K:11;LO")
+	add("pull-kick-connecting", "LS:f:9;K:9;K:9;LO;T:10;LS:0:11;K:9;K:11;LF")
+	add("pull-kick-connecting", "LS:0:9:1;RP:1;K:9;Rp:1;LO;LS:0:10:1;LO;K:10")
+	add("pull-stale-attempt", "LS:f:9;LA:1:0;LD:1:0;T:10;LO;LO;K:9;LF")
+	add("pull-stale-attempt", "LS:f:9;LA:1:1;LD:1:1;T:10;K:9;LT;LO;LO;T:11")
+	add("pull-stale-attempt", "LS:f:9;LA:1:0;LD:1:0;LS:f:10:1;LF;LO;LT")
+	// L0: a pull attempt of the group's own that attaches; L1: a pull session the group is not waiting for (refused)
 	kinds := []string{"R", "S", "C", "G", "L0", "L1"}
 	arrive := func(k string, x int) string {
 		switch k {
@@ -46,7 +65,7 @@ func c03L1Corpus() []struct{ label, evs string } {
 		case "G":
 			return fmt.Sprintf("GP:%d", x)
 		case "L0":
-			return fmt.Sprintf("LA:%d:0", x)
+			return fmt.Sprintf("LS:0:%d;LO", x)
 		default:
 			return fmt.Sprintf("LA:%d:1", x)
 		}
@@ -62,7 +81,7 @@ func c03L1Corpus() []struct{ label, evs string } {
 		case "G":
 			return fmt.Sprintf("GK:%d", x)
 		case "L0":
-			return fmt.Sprintf("LD:%d:0", x)
+			return "LF"
 		default:
 			return fmt.Sprintf("LD:%d:1", x)
 		}
@@ -81,7 +100,7 @@ func c03L1Corpus() []struct{ label, evs string } {
 
 type c03H struct {
 	id   int
-	kind string // R S C G L0 L1 rs ss
+	kind string // R S C G L0 L1 rs ss A (A: a pull attempt the group may have started under that handle)
 	in   bool   // pull sessions: already deleted
 }
 
@@ -96,7 +115,7 @@ func c03L1Scenario(r *Rng) (string, string) {
 		hs = append(hs, h)
 		return h
 	}
-	nid := func() int { n := next; next++; return n }
+	nid := func() int { return newH("A").id }
 	pick := func(pred func(*c03H) bool) *c03H {
 		var c []*c03H
 		for _, h := range hs {
@@ -113,7 +132,7 @@ func c03L1Scenario(r *Rng) (string, string) {
 	n := 3 + r.Intn(14)
 	disposed := false
 	for i := 0; i < n; i++ {
-		switch x := r.Intn(40); {
+		switch x := r.Intn(44); {
 		case x < 4:
 			evs = append(evs, fmt.Sprintf("RP:%d", newH("R").id))
 		case x < 6:
@@ -128,7 +147,7 @@ func c03L1Scenario(r *Rng) (string, string) {
 			evs = append(evs, fmt.Sprintf("LA:%d:%s", h.id, h.kind[1:]))
 			labels["pull-attach"] = true
 		case x < 16:
-			evs = append(evs, fmt.Sprintf("LS:%s:%d", r.Pick2("0", "1", "2", "f"), nid()))
+			evs = append(evs, fmt.Sprintf("LS:%s:%d%s", r.Pick2("0", "1", "2", "f"), nid(), r.Pick2("", "", ":1")))
 			labels["start-pull"] = true
 		case x < 18:
 			evs = append(evs, "LF")
@@ -161,6 +180,8 @@ func c03L1Scenario(r *Rng) (string, string) {
 						h.in = true
 						evs = append(evs, fmt.Sprintf("LD:%d:%s", h.id, h.kind[1:]))
 					}
+				case "A":
+					evs = append(evs, "LF")
 				case "rs":
 					evs = append(evs, fmt.Sprintf("Rs:%d", h.id))
 				case "ss":
@@ -180,6 +201,9 @@ func c03L1Scenario(r *Rng) (string, string) {
 			}
 		case x < 39:
 			evs = append(evs, fmt.Sprintf("T:%d", nid()))
+		case x < 43:
+			evs = append(evs, "LO")
+			labels["origin-answers"] = true
 		default:
 			if !disposed && i > n/2 {
 				evs = append(evs, "D")
@@ -192,7 +216,7 @@ func c03L1Scenario(r *Rng) (string, string) {
 		evs = append(evs, "RP:1")
 	}
 	var ls []string
-	for _, k := range []string{"rtp-pub", "pull-attach", "start-pull", "pull-fail", "departure", "kick", "feed", "dispose"} {
+	for _, k := range []string{"rtp-pub", "pull-attach", "start-pull", "origin-answers", "pull-fail", "departure", "kick", "feed", "dispose"} {
 		if labels[k] {
 			ls = append(ls, k)
 		}
